@@ -202,6 +202,105 @@ def run_history(version, ops, behaviours, connects, token, key, device_id=77, re
     return res
 
 
+def run_stack(ops, connects, token, key, device_id=77, responder=None):
+    """device-level histories on the real AirConditioner (V3): ('auth', token, key, hs, data) | ('refresh', hs, data)
+    | ('adv', ms); returns outcomes, canonical device record, structural log, recorded reactions, message-id counter"""
+    import devrun
+    from msmart.device.AC.command import Command
+    from msmart.device.AC.device import AirConditioner as AC
+    dev = simdev.SimDevice(version=3, device_id=device_id, token=token, key=key, responder=responder or (lambda f: [STATE]))
+    director = Director(3)
+    dev.script = [("custom", director)] * 100000
+    rec = Recorder()
+    res = {"outcomes": [], "times": [], "counter": Command._message_id}
+
+    async def scenario(loop, net):
+        net.add_tcp(IP, PORT, dev)
+        net.connect_script[(IP, PORT)] = [{"o": "ok", "r": "refuse", "h": "hang"}[c] for c in connects]
+        ac = AC(ip=IP, port=PORT, device_id=device_id)
+        for op in ops:
+            if op[0] in ("auth", "refresh"):
+                director.set(*op[-2:])
+            try:
+                if op[0] == "auth":
+                    await ac.authenticate(op[1], op[2])
+                    res["outcomes"].append("done")
+                elif op[0] == "refresh":
+                    await ac.refresh()
+                    res["outcomes"].append("ok")
+                elif op[0] == "adv":
+                    await asyncio.sleep(op[1] / 1000)
+                    res["outcomes"].append("done")
+            except Exception as e:  # noqa
+                res["outcomes"].append(canon_exc(e))
+            res["times"].append(ms(loop.now()))
+        res["net"] = net
+        res["canon"] = devrun.canon_dev(ac)
+    rec.install()
+    try:
+        vloop.run(scenario)
+    except Exception as e:  # noqa
+        res["outer_exc"] = type(e).__name__ + ": " + str(e)[:80]
+    finally:
+        rec.uninstall()
+    res["rx"] = rec.rx
+    res["tie"] = len(set(rec.abs)) != len(rec.abs)
+    deadlines = {(e["cid"], ms(e["t"]) + 2000) for e in dev.log}
+    if any(ct in deadlines for ct in rec.abs):
+        res["tie"] = True
+    res["dev"] = dev
+    res["log"] = device_log(res.get("net"), dev)
+    return res
+
+
+def stack_line(ops, rx, connects, counter, params=(2000, 5000, 1000)):
+    def opstr(op):
+        if op[0] == "auth":
+            return "auth." + hx(op[1]) + "." + hx(op[2])
+        if op[0] == "adv":
+            return f"adv.{op[1]}"
+        return "refresh"
+    rxs = ";".join(f"{c}.{i}.{d}.{'close' if v == 'close' else hx(v)}" for c, i, d, v in rx)
+    return (f"stackrun rt={params[0]} ct={params[1]} as={params[2]} connects={','.join(connects)} rx={rxs} "
+            f"counter={counter} ops={'|'.join(opstr(o) for o in ops)}")
+
+
+def compare_stack(ctx, stream, ops, connects, token, key, note=None):
+    import simdev as sd
+    orig_init = sd.SimDevice.__init__
+
+    def init(self, *a, **kw):
+        orig_init(self, *a, **kw)
+        patch_session_keys(self)
+    sd.SimDevice.__init__ = init
+    try:
+        res = run_stack(ops, connects, token, key)
+    finally:
+        sd.SimDevice.__init__ = orig_init
+    inp = {"ops": [o[0] + (":" + "/".join(o[-2:]) if o[0] != "adv" else str(o[1])) for o in ops], "connects": connects, "note": note}
+    if res.get("tie"):
+        ctx.count("tie-not-compared:" + stream)
+    if ctx.driver and not res.get("tie") and "canon" in res:
+        line = stack_line(ops, res["rx"], connects, res["counter"])
+        reply = ctx.driver.ask(line)
+        out, rest = reply.split(" dev=", 1)
+        mdev, rest = rest.split(" log=", 1)
+        log, now = rest.rsplit(" now=", 1)
+        mouts = out[4:].split(";") if out[4:] else []
+        mevs = [e for e in log.split(";") if e]
+        ilog = sort_log(res["log"])
+        peer_closed = {f"x{c}" for c, i, d, v in res["rx"] if v == "close"}
+        mlog = [e for e in mevs if not e.split(":", 1)[1].startswith(("a", "f")) and e.split(":", 1)[1] not in peer_closed]
+        mdev = mdev.replace("|", " ")
+        if mouts != res["outcomes"] or mlog != ilog or mdev != res["canon"]:
+            first = next((i for i, (a, b) in enumerate(zip(mlog, ilog)) if a != b), min(len(mlog), len(ilog)))
+            dd = [(a, b) for a, b in zip(mdev.split(" "), res["canon"].split(" ")) if a != b]
+            ctx.disagree(stream, {**inp, "line": line[:3000]},
+                         {"outcomes": res["outcomes"], "log_at": ilog[first:first + 3], "dev_diff": [b for a, b in dd][:6]},
+                         {"outcomes": mouts, "log_at": mlog[first:first + 3], "dev_diff": [a for a, b in dd][:6]})
+    return res, inp
+
+
 def device_log(net, dev):
     """the structural log as the model prints it: connects, writes (decoded by the DEVICE with its own
     keys), client closes — merged by time (stable)"""
